@@ -5,12 +5,9 @@ package waddrmgr
 // Assumed for property C16 (comment only): which child indices of a branch do
 // not derive to a valid key is a fixed fact about the account key
 // (invalidSet); DeriveFromKeyPath reports ErrInvalidChild only for those.
-// Its frame is the computed effect summary of its body.
 //@ spec func invalidSet(mgr Int, branch Int) [Int]Bool
-//@ func (*ScopedKeyManager).DeriveFromKeyPath(s, ns, kp) (addr, err)
-//@   trusted
-//@   ensures invalid_child_is_invalid: goeq(err, hdkeychain.ErrInvalidChild) ==> select(invalidSet(s, kp.Branch), kp.Index)
-//@   ensures address: err == nil ==> addr != nil
+// (the clause is attached to the contract of DeriveFromKeyPath in
+// zz_verif_contracts_c05_c04_c03_c08.go as `assumes invalid_child_is_invalid`)
 //@ iface ManagedAddress.Address(a) (r)
 //@   trusted
 //@   pure
